@@ -28,6 +28,8 @@ META['explanation'] += ' ' + 'R5 samples 8 byte fields beyond 2^32 and instants 
 
 META['explanation'] += ' ' + 'R8: timestamp fields receive the stored attribute (a constant in place of None never writes the sentinel).'
 
+META['explanation'] += ' ' + 'R3 also: a local-time function handed on as a value (converter), astimezone on a value whose zone was not tested. R10 / R11: the primitives keep nothing between calls.'
+
 LOCAL_TIME = {'time.mktime', 'time.localtime', 'time.timezone', 'time.altzone', 'time.daylight', 'time.tzname', 'time.ctime',
               'time.asctime', 'time.strftime'}
 
